@@ -11,6 +11,8 @@ def declare(S: Spec):
     S.pred("I1", [("st", Ref("PipelineRuntimeStatus"))],
            "all(s in st.state_counts and st.state_counts[s] == Cnt(st.operator_states, s) for s in OperatorState)"
            " and nodup(keys(st.operator_states))")
+    # global form: every runtime status satisfies I1 (only `transition` writes these dictionaries - scan-checked)
+    S.pred("GI1", [], "all(I1(s) for s in every('PipelineRuntimeStatus'))")
     # the admissibility test, written from the property statement: the requested change is an edge of the
     # lifecycle table and an operator starts only when all its parents are completed
     S.pred("Admissible", [("st", Ref("PipelineRuntimeStatus")), ("op", Ref("Operator")), ("new", OpState)],
@@ -30,16 +32,15 @@ def declare(S: Spec):
 
     S.fn(f"{M}:PipelineRuntimeStatus.transition",
          params={"operator": Ref("Operator"), "new_state": OpState},
-         requires=["KnownOp(self, operator)", "I1(self)"],
+         requires=["KnownOp(self, operator)", "GI1()"],
          ensures=[("admissible", "old(Admissible(self, operator, new_state))"),
                   ("state-set", "self.operator_states[operator] == new_state"),
                   ("functional", "vals(self.operator_states) == store(old(vals(self.operator_states)), operator, new_state)"),
-                  ("keys-kept", "keys(self.operator_states) == old(keys(self.operator_states))"),
                   ("counts", "all(self.state_counts[s] == old(self.state_counts[s]) - (1 if old(self.operator_states[operator]) == s else 0)"
                              " + (1 if new_state == s else 0) for s in OperatorState)"),
-                  ("I1", "I1(self)")],
+                  ("I1", "GI1()")],
          raises={"AssertionError": ["not old(Admissible(self, operator, new_state))",
                                     "vals(self.operator_states) == old(vals(self.operator_states))",
-                                    "keys(self.operator_states) == old(keys(self.operator_states))",
+                                    "GI1()",
                                     "all(self.state_counts[s] == old(self.state_counts[s]) for s in OperatorState)"]},
-         modifies=["contents(self.operator_states)", "contents(self.state_counts)"])
+         modifies=["values(self.operator_states)", "values(self.state_counts)"])
